@@ -19,6 +19,7 @@ REG.builtin_method_effects = {}
 REG.opaque_classes = {}
 REG.used_opaque = set()
 REG.dict_universes = {}
+REG.raise_requires = {}
 
 
 class PreFail(Exception):
@@ -104,6 +105,10 @@ def define(f):
 
 
 def is_fresh(x):
+    return True
+
+
+def existing_unchanged(name):
     return True
 
 
@@ -220,12 +225,49 @@ def lemma(fn):
     return fn
 
 
+class _Lazy(ast.NodeTransformer):
+    """Native semantics: implies(a, b) and ite(c, a, b) must not evaluate the operand that is not needed."""
+
+    def visit_Call(self, node):
+        self.generic_visit(node)
+        if isinstance(node.func, ast.Name) and node.func.id == "implies" and len(node.args) == 2:
+            return ast.BoolOp(op=ast.Or(), values=[ast.UnaryOp(op=ast.Not(), operand=node.args[0]), node.args[1]])
+        if isinstance(node.func, ast.Name) and node.func.id == "ite" and len(node.args) == 3:
+            return ast.IfExp(test=node.args[0], body=node.args[1], orelse=node.args[2])
+        return node
+
+
+def lazy_expr(node):
+    import copy as _copy
+
+    return ast.fix_missing_locations(_Lazy().visit(_copy.deepcopy(node)))
+
+
+def _native_twin(fn, node, mod):
+    """The same function with lazily evaluated implies/ite, compiled in the sidecar module's namespace."""
+    import copy as _copy
+
+    n2 = _copy.deepcopy(node)
+    n2.decorator_list = []
+    n2 = _Lazy().visit(n2)
+    for a in n2.args.args:
+        a.annotation = None
+    m = ast.Module(body=[n2], type_ignores=[])
+    ast.fix_missing_locations(m)
+    ns = {}
+    exec(compile(m, mod.__file__ or "<sidecar>", "exec"), mod.__dict__, ns)
+    twin = ns[fn.__name__]
+    twin.__module__ = fn.__module__
+    return twin
+
+
 def inline(fn):
     """A sidecar helper whose body is inlined symbolically (like a transparent real function)."""
     mod = _sidecar_of(fn)
     node = _module_funcdefs(mod)[fn.__name__]
-    fn.__pyvc_inline__ = (node, mod)
-    return fn
+    twin = _native_twin(fn, node, mod)
+    twin.__pyvc_inline__ = (node, mod)
+    return twin
 
 
 def specfun(fn):
@@ -252,6 +294,9 @@ class Contract(object):
         self.result = g("result", None)
         self.requires = [_parse(s) for s in g("requires", [])]
         self.ensures = [_parse(s) for s in g("ensures", [])]
+        # postconditions assumed at call sites but NOT verified against the body: each needs a stated reason
+        # and is listed among the assumptions in the evidence
+        self.assumed_ensures = [(_parse(s), why) for (s, why) in g("assumed_ensures", [])]
         self.modifies = [_parse(s) for s in g("modifies", [])]
         self.invariants = {k: [_parse(s) for s in v] for k, v in g("invariants", {}).items()}
         self.raises = []
@@ -267,6 +312,7 @@ class Contract(object):
         self.ghost = {k: [_parse(x) for x in v] for k, v in g("ghost", {}).items()}
         self.str_domains = dict(g("str_domains", {}))
         self.split_on = list(g("split_on", []))
+        self.split_loops = list(g("split_loops", []))
         self.properties = g("properties", [])
 
     def resolve_classes(self):
@@ -314,6 +360,15 @@ def opaque_class(fq, kind, reason):
     """Instances are opaque objects; their methods are given trusted models (listed in the evidence)."""
     REG.opaque_classes[fq] = kind
     REG.opaque_calls[fq] = reason
+
+
+def raise_requires(exc_class, predicate, why):
+    """Precondition of constructing/raising exc_class(a0, a1, ...): checked at every raise site in verified code.
+    Used for what the exception's explain()/bitstream_viewer_hint() need of its arguments (C02, second sentence)."""
+    import sys as _sys
+
+    mod = _sys.modules[_sys._getframe(1).f_globals["__name__"]]
+    REG.raise_requires.setdefault(exc_class, []).append((_parse(predicate), mod.__dict__, why))
 
 
 def dict_universe(clsname, keys):
